@@ -160,6 +160,9 @@ func (C11) Gen(rng *core.Rng, tier string, idx int) *core.Scenario {
 	}
 	ttl := core.Pick(rng, []int{1, 2, 5, 10, 20, 30, 60, 60, 120, 300})
 	cfg.Extra = append(cfg.Extra, fmt.Sprintf("patch_%d", ttl))
+	if rng.Chance(0.15) { // UTCTiming variants: nothing in the MPD may depend on the request instant but through publishTime
+		cfg.Extra = append(cfg.Extra, core.Pick(rng, []string{"utc_direct", "utc_direct-ntp", "utc_httpiso", "utc_head-sntp", "utc_none"}))
+	}
 	if rng.Chance(0.08) {
 		cfg.Extra = append(cfg.Extra, core.Pick(rng, []string{"timesubsstpp_en", "timesubswvtt_en,sv"}))
 	}
